@@ -75,6 +75,12 @@ def step (st : St) (l : String) : St × String :=
       let a := hasA sd (prefixOf sig) (hR sig)
       (st, showRes b ++ (if b = (if a then Res.yes else Res.no) then "" else " MODEL-LAYERS-DISAGREE"))
     | _, _ => (st, "nofile")
+  | ["chas", _] =>
+    -- every added signature asked by several goroutines at once of one shared Reader: `Has` is a function of the
+    -- file (seal_has: every added signature answers true), so the answer does not depend on who else is asking
+    match st.sd, st.rdr with
+    | some _, some _ => (st, "ok")
+    | _, _ => (st, "nofile")
   | ["dump"] => (st, hex st.file.toList)
   | _ => (st, "bad-op")
 
